@@ -6,7 +6,7 @@ use crate::geom::*;
 use crate::model::*;
 use crate::rng::Rng;
 
-pub const POINT_CLASSES: [&str; 9] = ["uniform", "polar", "antimeridian", "seam", "dvertex", "fcentre", "tseam", "edgemid", "switch"];
+pub const POINT_CLASSES: [&str; 11] = ["uniform", "polar", "antimeridian", "seam", "dvertex", "fcentre", "tseam", "edgemid", "switch", "diagonal", "axes"];
 
 /// angular distances from a corner of the projection's triangles at which the inverse projection switches between a
 /// series and a closed form (read off the code: safe_acos at x = 1e-3, i.e. 2e-3 rad; vector_difference at 1e-8, i.e.
@@ -189,6 +189,27 @@ pub fn point(rng: &mut Rng, fr: &Frame, class: &str) -> (f64, f64) {
             let r0 = if rng.chance(0.7) { SWITCH_RADII[0] } else { *rng.pick(&SWITCH_RADII) };
             let delta = if rng.chance(0.1) { 0.0 } else { rng.log10(1.0, 9.0) * rng.sign() };
             nudge_exact(rng, c, r0 * (1.0 + delta))
+        }
+        "axes" => {
+            // on / next to the special coordinate values: the equator, the meridians 0, +-90, +-180 (loci that mean nothing to
+            // the grid but are where clean-up code for zeros and quadrant boundaries lives)
+            let eps = if rng.chance(0.1) { 0.0 } else { rng.log10(0.0, 15.0) } * rng.sign();
+            if rng.chance(0.5) {
+                (rng.range(-180.0, 180.0), eps)
+            } else {
+                (90.0 * (rng.below(5) as f64 - 2.0) + eps, rng.range(-1.0f64, 1.0).asin().to_degrees())
+            }
+        }
+        "diagonal" => {
+            // coordinates with a simple bitwise relation between longitude and latitude (equal, opposite, halves, integers):
+            // distinct physical points that collide under careless hashing / keying of a coordinate pair
+            let lat = if rng.chance(0.3) { (rng.range(-90.0, 90.0) as f64).round() } else { rng.range(-90.0, 90.0) };
+            match rng.below(4) {
+                0 => (lat, lat),
+                1 => (-lat, lat),
+                2 => (2.0 * lat, lat),
+                _ => (lat, lat / 2.0),
+            }
         }
         "edgemid" => {
             let (i, j) = *rng.pick(&fr.edges);
